@@ -120,6 +120,15 @@ def wfVP9Flex (st : VP9Pay) (pk : Packetizer) (fs : List FrameIn) : Bool :=
   st.flexible && decide (vp9Pid st < 32768) && cfgOk pk && decide (overhead pk + 4 ≤ pk.mtu.toNat) &&
   framesNonEmpty fs
 
+/-- VP9, both modes: a reachable payloader state, and every frame is in C12's domain for the budget
+    the packetizer hands out (`C12.proper`: non-empty; flexible mode: budget > 3; non-flexible mode:
+    the frame starts with the bits of a well-formed key / non-key header description with coded
+    sizes ≤ 65535, budget > 3 for a non-key frame and > 11 for a key frame, whose first packet
+    carries the 8-octet scalability structure) -/
+def wfVP9 (st : VP9Pay) (pk : Packetizer) (frames : List VP9Frame) : Bool :=
+  decide (vp9Pid st < 32768) && cfgOk pk && decide (overhead pk ≤ pk.mtu.toNat) &&
+  frames.all (fun fr => Rtp.Pred.C12.proper st.flexible (fr.call pk.budget))
+
 /-- H264: C10's bound (3 bytes for the payloader) and C10's hypotheses on every frame -/
 def wfH264 (pk : Packetizer) (frames : List H264Frame) : Bool :=
   cfgOk pk && decide (overhead pk + 3 ≤ pk.mtu.toNat) && frames.all H264Frame.wf
